@@ -123,7 +123,7 @@ def has_put(codes):
     return "%put" in "".join(chr(c) for c in codes).lower()
 
 
-GROUPS = [["esc", "dol1", "dol2", "mix"], ["til", "pg", "call"]]
+GROUPS = [["esc", "dol1", "mix"], ["til", "dol2", "pg", "call"]]
 
 
 def split_cfgs(ctx, cfg):
@@ -413,13 +413,11 @@ def at_limit_family(tier):
     out.append([(big, "$B1$B1")])
     out.append([(big, "%put(ka $B1)%get(ka)12345678%get(ka)")])
     out.append([(big, "%get(zz ~~~)")])
-    return out
+    return [h for h in out if all(len(t) <= LIM for _, t in h)]      # callers' contract: the text fits the line buffer
 
 
-def trace_validation(ctx, exe):
-    rnd = random.Random(ctx.seed + 10)
-    nscripts, nlong = (260, 10) if ctx.tier == "quick" else (6000, 80)
-    scripts = gen_traces(rnd, nscripts, nlong) + at_limit_family(ctx.tier)
+def record(ctx, exe, scripts, tag="rec"):
+    """Runs histories [(env, text), ...] on the implementation in record mode.  Returns (events, index, texts, nrecorded)."""
     keytok = tok([b(k) for k in sorted(TKEYS)])
     texts = []
     for sid, hist in enumerate(scripts, 1):
@@ -428,7 +426,7 @@ def trace_validation(ctx, exe):
             lines.append("expand %s %s = ? ?" % (envtok(env), tok(b(t))))
         lines.append("E")
         texts.append("\n".join(lines) + "\n")
-    fails, recs, ns, nt = run_scripts(exe, ["aa", keytok], texts, ctx.rundir, jobs=4, tag="rec",
+    fails, recs, ns, nt = run_scripts(exe, ["aa", keytok], texts, ctx.rundir, jobs=4, tag=tag,
                                       env={"ASAN_OPTIONS": asan_opts(170)})
     bad = set()
     for f in fails:
@@ -456,20 +454,21 @@ def trace_validation(ctx, exe):
                            {"variant": "pass-aa", "harness_args": ["aa", keytok], "script_text": texts[sid - 1]})
                 break
             isnull = ret == "NULL"
-            got = [] if isnull else untok(ret)
-            st = untok(state)
             events.append({"reset": step == 0, "env": [[b(k), b(v)] for k, v in env], "input": b(t), "isnull": isnull,
-                           "got": got, "store": st})
+                           "got": [] if isnull else untok(ret), "store": untok(state)})
             index.append((sid, step))
-    if not events:
-        raise Broken("no trace events recorded")
-    path = os.path.join(ctx.rundir, "trace-c10.ndjson")
+    return events, index, texts, len(by) - len(bad)
+
+
+def validate(ctx, events, tag="c10"):
+    """TLC on ExpandTrace.tla: one verdict {l, ok, claimed, why, trunc, alts} per event."""
+    path = os.path.join(ctx.rundir, "trace-%s.ndjson" % tag)
     with open(path, "w") as f:
         for e in events:
             f.write(json.dumps(e, separators=(",", ":")) + "\n")
     verdicts = []
     res = run_tlc("ExpandTrace.tla", "ExpandTrace.cfg", ctx.rundir, on_edge=verdicts.append, workers=1, timeout=2400,
-                  env={"TRACE": path}, coverage=False, extra=["-Xss64m"] if False else [])
+                  env={"TRACE": path}, coverage=False)
     if res.violation or not res.ok:
         raise Broken("trace validation run failed (ExpandTrace): %s\n%s" % (res.violation, "\n".join(res.tail[-20:])))
     uniq = {}
@@ -479,6 +478,17 @@ def trace_validation(ctx, exe):
     verdicts = [uniq[k] for k in sorted(uniq)]
     if len(verdicts) != len(events) or not any("TRACE_DONE" in x for x in res.tail):
         raise Broken("trace validation consumed %d of %d events" % (len(verdicts), len(events)))
+    return verdicts, res
+
+
+def trace_validation(ctx, exe):
+    rnd = random.Random(ctx.seed + 10)
+    nscripts, nlong = (260, 8) if ctx.tier == "quick" else (3000, 40)
+    scripts = gen_traces(rnd, nscripts, nlong) + at_limit_family(ctx.tier)
+    events, index, texts, nrec = record(ctx, exe, scripts)
+    if not events:
+        raise Broken("no trace events recorded")
+    verdicts, res = validate(ctx, events)
     nclaimed = ntrunc = nmax = 0
     why = {}
     for v in verdicts:
@@ -495,10 +505,10 @@ def trace_validation(ctx, exe):
             ctx.report("trace-rejected expand [%s]%s" % (kinds(b(t), env), " at-limit" if v["trunc"] or len(t) > 20000 else ""),
                        "TLC (ExpandTrace) does not accept the recorded result of event %d: input(%d chars) %r... env %r got(%d chars) %r... store %r" % (
                            v["l"], len(t), t[:120], [(k, x[:20]) for k, x in env], len(ev["got"]), text_of(ev["got"][:120]), ev["store"]),
-                       {"variant": "pass-aa", "harness_args": ["aa", keytok], "script_text": texts[sid - 1], "event_index": v["l"],
-                        "event": {k: (x if k not in ("input", "got") or len(x) < 400 else x[:400]) for k, x in ev.items()}})
+                       {"variant": "pass-aa", "history": [[list(map(list, env_)), t_] for env_, t_ in scripts[sid - 1]], "step": step,
+                        "got": text_of(ev["got"])[:2000], "store": ev["store"]})
     ctx.add("trace_events_validated", len(verdicts))
-    ctx.add("traces_validated_against_impl", len(by) - len(bad))
+    ctx.add("traces_validated_against_impl", nrec)
     ctx.cov["trace"] = {"scripts": len(scripts), "events": len(events), "events_claimed": nclaimed, "events_truncated_at_limit": ntrunc,
                         "longest_input": max(len(e["input"]) for e in events), "longest_result": nmax,
                         "events_unclaimed_by_reason": why, "tlc_wall_s": round(res.wall, 1), "tlc_states": res.distinct}
@@ -535,5 +545,18 @@ def run(ctx):
 def replay(ctx, path):
     d = json.load(open(path))
     rp = d.get("replay") or {}
+    exe = harness(ctx)
+    if rp.get("history"):
+        # a recorded history rejected by the trace specification: record it again and let TLC judge it again
+        hist = [([tuple(p) for p in env], t) for env, t in rp["history"]]
+        events, index, texts, nrec = record(ctx, exe, [hist], tag="replay")
+        bad = len(ctx.violations)
+        if events:
+            verdicts, res = validate(ctx, events, tag="replay")
+            for v in verdicts:
+                print("event %d: %s%s" % (v["l"], "accepted" if v["ok"] else "REJECTED", "" if v["claimed"] else " (value not claimed: %s)" % v["why"]))
+                bad += 0 if v["ok"] else 1
+        print("REPRODUCED" if bad else "not reproduced: the history is accepted")
+        return 1 if bad else 0
     env = {"ASAN_OPTIONS": asan_opts(170 if (rp.get("variant") or "pass-aa") == "pass-aa" else 85)}
-    return objcheck.replay_file(harness(ctx), ["aa", "[]"], path, ctx.rundir, env=env)
+    return objcheck.replay_file(exe, ["aa", "[]"], path, ctx.rundir, env=env)
